@@ -9,7 +9,10 @@ are a function of the values its predecessor nodes produced (`Wf.mkJobs`).  A *r
 nodes is any `r` that satisfies these equations (`RefJobs`); on an acyclic graph it is unique.
 The theorems say: whatever the schedule, the limit `k`, the completion order and the loop (asynchronous with any
 worker that runs each job once, or the synchronous debug loop), every node that is started gets exactly the reference
-jobs, and a successful submission returns exactly the reference outputs.
+jobs, and a successful submission returns exactly the reference outputs.  Job lists may be EMPTY (a split over an
+empty list, given literally or produced upstream): such a node is done as soon as it is started, `C17_sync` /
+`C17_async` cover it because they rest on "every node is done", not on "no task is runnable"
+(`C17_empty_split_regression`, `C17_while_tasks_witness`).
 -/
 namespace PydraModel.Sched
 open PydraModel.Graph
@@ -200,5 +203,59 @@ example :
     ((runSync wfDyn none [0, 1, 2] (fun _ => false) 20).1,
       [0, 1, 2].map (outputs wfDyn (runSync wfDyn none [0, 1, 2] (fun _ => false) 20).2))
       = (SyncOutcome.success, [[2], [11, 12], [124]]) := by decide
+
+/-! ### nodes with an EMPTY job list
+
+node 0 has one job (checksum 5, value 0); node 1 splits over `range (value of node 0)` = the empty list, so it gets no
+job at all and is done as soon as it is started; node 2 consumes node 1's (empty) list of values: checksum 100 + 0.
+The scan that starts node 1 returns no task (node 2 is cut off by the `not_started` break), so the loops must go on
+because a node is not done, not because a task is runnable. -/
+
+def wfEmpty : Wf :=
+  ⟨⟨[0, 1, 2], [(0, 1), (1, 2)], [], none⟩,
+   fun n ins => match n with
+     | 0 => [5]
+     | 1 => (List.range ((ins.headD []).headD 0)).map (· + 10)
+     | _ => [100 + (ins.headD []).foldl (· + ·) 0],
+   fun c => if c = 5 then 0 else c⟩
+
+def refEmpty : NodeId → List Ck
+  | 0 => [5]
+  | 1 => []
+  | _ => [100]
+
+example : WellFormed wfEmpty [0, 1, 2] := ⟨rfl, by decide, by decide⟩
+example : Acyclic wfEmpty.g := ⟨fun n => n, by decide⟩
+
+theorem refEmpty_ok : RefJobs wfEmpty refEmpty := by
+  intro n
+  match n with
+  | 0 => decide
+  | 1 => decide
+  | 2 => decide
+  | n + 3 => simp [refEmpty, wfEmpty, Wf.preds]
+
+/-- REGRESSION (zero-job nodes): the asynchronous loop (through its stall detector's re-poll) and the synchronous
+    loop both go on after the empty node and return the reference outputs [[0], [], [100]] -/
+theorem C17_empty_split_regression :
+    (match runAsync wfEmpty none [0, 1, 2]
+        [[.acquire 5, .finishOk 5, .complete 5], [.acquire 100, .finishOk 100, .complete 100]] with
+     | .done o st => some (o, [0, 1, 2].map (outputs wfEmpty st))
+     | _ => none) = some (Outcome.success, [[0], [], [100]]) ∧
+    ((runSync wfEmpty none [0, 1, 2] (fun _ => false) 20).1,
+      [0, 1, 2].map (outputs wfEmpty (runSync wfEmpty none [0, 1, 2] (fun _ => false) 20).2))
+      = (SyncOutcome.success, [[0], [], [100]]) ∧
+    ((runSync wfEmpty (some 1) [0, 1, 2] (fun _ => false) 20).1,
+      [0, 1, 2].map (outputs wfEmpty (runSync wfEmpty (some 1) [0, 1, 2] (fun _ => false) 20).2))
+      = (SyncOutcome.success, [[0], [], [100]]) := by decide
+
+/-- WITNESS (what the continuation condition `any(not n.done ...)` is for): with `while tasks:` alone the
+    synchronous loop stops right after the empty node was started, reports success, and node 2 — never started —
+    contributes no value: the outputs differ from those of every other worker -/
+theorem C17_while_tasks_witness :
+    ((runSyncTasksOnly wfEmpty none [0, 1, 2] (fun _ => false) 20).1,
+      [0, 1, 2].map (outputs wfEmpty (runSyncTasksOnly wfEmpty none [0, 1, 2] (fun _ => false) 20).2),
+      ((runSyncTasksOnly wfEmpty none [0, 1, 2] (fun _ => false) 20).2.ns.get 2).blk)
+      = (SyncOutcome.success, [[0], [], []], none) := by decide
 
 end PydraModel.Sched
